@@ -1,6 +1,7 @@
 """C42 — read-only modes block every write and nothing else.
 Spec: spec/ReadOnlyModes.tla (statement kinds with a class written from the SQL definition of each
-statement; rule Expect/Judge).  TLC enumerates mode x kind and model-checks the rule; binding A:
+statement; DML shape kinds x table features (TabsOf); rule Expect/Judge).  TLC enumerates
+mode x kind x table feature and model-checks the rule; binding A:
 harness/cmd/c42 executes every representative statement of every kind on a freshly populated engine
 under the mode and on an identically populated read-write engine; spec/Trace_ReadOnly.tla judges
 every recorded observation."""
@@ -11,8 +12,8 @@ META = {
     "property_id": "C42",
     "level": "model_checking",
     "technique": "TLA+ spec ReadOnlyModes.tla (mode x statement-kind rule, model-checked); every (mode, kind) case enumerated by TLC is executed with all its representative statements on the real engine; outcome class + digest of all data and catalog + result equality with a read-write twin judged by TLC (Trace_ReadOnly.tla)",
-    "text": "TLC enumerates every pair of a read-only mode (engine configured read-only, server locked, READ ONLY transaction, read-only database, none) and a statement kind (derived from the planbuilder's statement switch; class writes/reads/unjudged written from the SQL definition of the statement, not from the engine's IsReadOnly flags). Each of the ~230 representative statements is run on a freshly populated engine under the mode and on an identically populated read-write engine; a digest of all tables, SHOW CREATE TABLE, views, triggers, routines, events, databases, accounts and grants is taken before and after. TLC judges: a write must be refused with a read-only error and leave the digest unchanged; a write outside the mode's scope and every read must behave exactly as in the read-write engine.",
-    "note": "unjudged kinds (temporary tables, ANALYZE, CALL, LOCK TABLES, FLUSH, transaction control, SELECT INTO, named locks, KILL, SET GLOBAL, PREPARE/EXPLAIN of a write, replication) are executed and recorded but never compared; the memory backend's own session cannot commit against memory.ReadOnlyDatabase, so mode ro_db commits through a provider yielding the wrapped database and mode ro_db_mem (memory's own pairing) is exercised for reads only; trusted: TLC, the outcome classification by error text and the digest in harness/cmd/c42",
+    "text": "TLC enumerates every triple of a read-only mode (engine configured read-only, server locked, READ ONLY transaction, read-only database, none), a statement kind (derived from the planbuilder's statement switch; class writes/reads/unjudged written from the SQL definition of the statement, not from the engine's IsReadOnly flags) and, for the DML shape kinds, a table feature. Shape kinds are the statement shapes the planner sends down paths of their own: DELETE without WHERE (the DELETE -> TRUNCATE rewrite), DELETE / UPDATE with LIMIT / ORDER BY, UPDATE without WHERE, INSERT .. VALUES / SELECT / IGNORE / ON DUPLICATE KEY UPDATE, REPLACE, multi-table UPDATE / DELETE, LOAD DATA, the same through PREPARE / EXECUTE, TRUNCATE TABLE (DDL), each on a plain, a keyless, an AUTO_INCREMENT, a trigger, a foreign-key parent and a foreign-key child table; CALL of procedures whose body writes is a write kind of its own. Each of the 262 representative statements (26 of them once per table feature) is run on a freshly populated engine under the mode and on an identically populated read-write engine; a digest of all tables, SHOW CREATE TABLE, views, triggers, routines, events, databases, accounts and grants is taken before and after. TLC judges: a write must be refused with a read-only error and leave the digest unchanged; a write outside the mode's scope and every read must behave exactly as in the read-write engine.",
+    "note": "unjudged kinds (temporary tables, ANALYZE, CALL of a procedure that only reads, LOCK TABLES, FLUSH, transaction control, SELECT INTO, named locks, KILL, SET GLOBAL, PREPARE/EXPLAIN of a write, replication) are executed and recorded but never compared; the memory backend's own session cannot commit against memory.ReadOnlyDatabase, so mode ro_db commits through a provider yielding the wrapped database and mode ro_db_mem (memory's own pairing) is exercised for reads only; two shapes the engine does not support at all on one table feature (UPDATE JOIN on a keyless table, multi-table DELETE on a trigger table) are left out there; trusted: TLC, the outcome classification by error text and the digest in harness/cmd/c42",
     "design_ref": "§7 C42",
 }
 
@@ -153,7 +154,7 @@ def check(tier):
             raise lib.Inconclusive("representatives that do not show their class on the read-write engine (fix them): %s"
                                    % sorted({"%s: rw=%s/%s %s" % (e["rep"], e["rw_out"], e["rw_changed"], e["rw_msg"][:60]) for e in incs}))
         judged = [e for e in evs if rep and e["mode"] != "none"]
-        if len(evs) < 800 or rep["nontrivial"] < 500:
+        if len(evs) < 1500 or rep["nontrivial"] < 1000 or sum(1 for e in evs if e.get("tab", "any") != "any") < 500:
             raise lib.Inconclusive("vacuous: only %d observations (%d judged under a read-only mode)" % (len(evs), rep["nontrivial"]))
         rc = v.finish()
         by_class = {}
@@ -165,7 +166,10 @@ def check(tier):
             "samples": rep["samples"][:3] or evs[:2],
             "exhaustive": True,
             "evaluations": len(evs), "distinct_nontrivial": rep["nontrivial"],
-            "rule": "every (mode, statement kind) pair of the specification's table, every representative statement of the kind, fresh populated engine per execution; non-trivial = a judged (writes or reads) kind under a read-only mode",
+            "rule": "every (mode, statement kind, table feature) triple of the specification's tables (table feature = any for the kinds that name their own tables), every representative statement of the kind, fresh populated engine per execution; non-trivial = a judged (writes or reads) kind under a read-only mode",
+            "shape_cases": sum(1 for c in cases if c["tab"] != "any"),
+            "shape_observations": sum(1 for e in evs if e.get("tab", "any") != "any"),
+            "table_features": sorted({c["tab"] for c in cases}),
             "modes": sorted({c["mode"] for c in cases}), "kinds": len(kinds), "representatives": rep["extra"]["representatives"],
             "cases_by_class": by_class, "outcomes": rep["extra"]["outcomes"],
             "disagreements_reproduced": len(mms), "witness_disagreements": nw,
